@@ -49,7 +49,7 @@ KERNEL_CORPUS = [
     '@media (color: rgb(1,2,3)){a{b:c}}', '@media screen and (min-width:1px), print and{a{b:c}}',
     'a\\7C b|c{x:y}', '*|*|*{x:y}', 'a||b{x:y}', '"s"{x:y}', ':nth-child(+ 2n - 1){x:y}', 'a + > b{x:y}',
     '@media{a{b:c}}', '@media screen{@media print{a{b:c}}}', 'a{b:c', '@media screen{a{b:c}', 'a,{b:c}', ',a{b:c}',
-    '@import "x" screen, (color);', '@media screen /*c*/ , /*d*/ print{a{b:c}}', '@media all and (color:#fff){}',
+    '@import "x" screen, (color);', 'z{y:x}a|/**/ b, c{b:c}w{v:u}', '@namespace p "u";p|/**/a{b:c}', '@media screen /*c*/ , /*d*/ print{a{b:c}}', '@media all and (color:#fff){}',
 ]
 
 MEDIA_WORDS = ['screen', 'print', 'all', 'ALL', 'only', 'not', 'and', 'AND', 'tv', 'x', '(', ')', ':', ',', ', ', ' ',
@@ -74,6 +74,14 @@ def KN_media(rng):
         i = rng.randrange(len(s) + 1)
         return s[:i] + rng.choice(MEDIA_WORDS) + s[i:]
     return ' '.join(rng.choice(MEDIA_WORDS) for _ in range(rng.randint(0, 7)))
+
+
+def sel_model_behind(toks):
+    """The selector model `Model/Sel.lean` (owned by C16, imported read-only here) is re-synced to fix 3495bab
+    (`New.append`: a COMMENT directly after a saved namespace prefix keeps the prefix) by C16 in this round; until that
+    lands, model and code differ exactly on preludes in which a `|` is directly followed by a COMMENT token. Such
+    preludes are counted and not compared (this is not a finding of the code)."""
+    return any(a[1] == '|' and b[0] == 'COMMENT' for a, b in zip(toks, toks[1:]))
 
 
 def media_known(toks):
@@ -306,6 +314,7 @@ class C01(Check):
         # texts on which the media engine model left its token domain (colour function as a feature value, a
         # punctuation value carried by a non-CHAR token): the composed result is not comparable there
         outside = set(i for (i, toks, got), line in zip(med_idx, med_out) if line.startswith('unsupported'))
+        behind = set(i for (i, ns, toks, got) in sel_idx if sel_model_behind(toks))
         for i, ((t, k, r), (tree, orc), l0) in enumerate(zip(ok, models, out0)):
             ctx.case(key=('kernels', t), nontrivial=bool(r['sel'] or r['media']) or k == 'malformed', kind='kernels:' + k,
                      sample={'text': t[:200], 'selector_calls': len(r['sel']), 'media_calls': len(r['media']),
@@ -338,6 +347,9 @@ class C01(Check):
             if i in outside:
                 ctx.count('kernels:text-outside-media-model')
                 continue
+            if i in behind:
+                ctx.count('kernels:text-with-comment-after-namespace-prefix (selector model awaits re-sync to 3495bab)')
+                continue
             mp = K.strip_proj(K.proj_rules_model(tree['rules'], r['toks1'], orc))
             if mp != r['real']:
                 ctx.disagree('kernels/cssRules', w, r['real'], mp)
@@ -356,7 +368,9 @@ class C01(Check):
             if parts[1] != 'dom=1':
                 ctx.disagree('kernels/selector domain (theorem stream_selDom)', w, 'in domain', line)
             want = 'ok1' if got else 'ok0'
-            if parts[0] != want:
+            if parts[0] == 'raised':
+                ctx.disagree('kernels/selector machine raised inside selDom (theorem selector_machine_total)', w, want, line)
+            elif parts[0] != want and not sel_model_behind(toks):
                 ctx.disagree('kernels/selector machine outcome', w, want, line)
         for (i, toks, got), line in zip(med_idx, med_out):
             t = ok[i][0]
